@@ -7,11 +7,17 @@ From Coq Require Import String Ascii.
 From Coq Require Import ZArith List Bool.
 From V Require Import base.Cal posix.PTime posix.RDelta posix.TzParseModel posix.TzRangeModel
      posix.PosixSpec posix.TransThm posix.MainThm posix.PosixThm posix.IcalModel posix.IcalThm
-     posix.IcalEquiv posix.IcalParseThm posix.WallThm posix.IcalWall posix.IcalUtc.
+     posix.IcalEquiv posix.IcalParseThm posix.WallThm posix.IcalWall posix.IcalUtc posix.IcalConcModel posix.IcalConcThm.
 Import ListNotations.
 Open Scope Z_scope.
 
-(* MAIN.  comp_daylight r ds y0 n / comp_standard r ds y0 n (IcalEquiv.v) are the DAYLIGHT and
+(* SCOPE of the equivalence theorems: the zone has ONE rule, hence a CONSTANT standard offset
+   (comp_daylight: from p_off to d_off, comp_standard: from d_off to p_off, in every year).  A zone
+   whose STANDARD offset changes between eras is outside these theorems: the generic
+   _tzinfo._fromutc assumes utcoffset() - dst() constant and converts wrongly next to such a change
+   (open finding F-C04-tzical-std-change of the tzfile area).
+
+   MAIN.  comp_daylight r ds y0 n / comp_standard r ds y0 n (IcalEquiv.v) are the DAYLIGHT and
    STANDARD components whose onsets are the rule's start events (local standard time) and end
    events (local daylight time) of the years y0 .. y0+n-1 -- ANY first year, ANY number of years.
    For every wall reading w of a year after y0 inside that horizon and either fold, the VTIMEZONE
@@ -86,6 +92,26 @@ Theorem C17_cache_never_changes_an_answer : forall cs qs,
   run_queries cs [] qs = map (fun '(w, f) => ic_utcoffset cs w f) qs.
 Proof. exact cache_never_changes_an_answer. Qed.
 Print Assumptions C17_cache_never_changes_an_answer.
+
+(* the cache as the code has it -- two parallel lists under _cache_lock, one zone object shared by
+   any number of threads (IcalConcModel.v: a schedule is a list of thread numbers, each entry lets
+   that thread perform its next lock-granularity step: hit [lock], scan [no lock], insert [lock]).
+   Under the code's lock discipline EVERY interleaving gives every query the stateless answer. *)
+Theorem C17_interleaved_lookups_are_stateless : forall cs sched todos th,
+  In th (snd (run cs true sched (mkSh [] []) (map fresh todos))) ->
+  forall q a, In (q, a) th.(t_out) -> a = expected cs q.
+Proof. exact interleaved_lookups_are_stateless. Qed.
+Print Assumptions C17_interleaved_lookups_are_stateless.
+
+(* ... and the statement is FALSE when the hit path reads _cachecomp[idx] after releasing the lock
+   (atomic_hit = false; the seeded change C17-2): a front insert by another thread shifts the
+   parallel lists under the waiting reader *)
+Theorem C17_read_outside_lock_refuted :
+  exists sched todos th q a,
+    In th (snd (run conc_comps false sched (mkSh [] []) (map fresh todos))) /\
+    In (q, a) th.(t_out) /\ a <> expected conc_comps q.
+Proof. exact read_outside_lock_refuted. Qed.
+Print Assumptions C17_read_outside_lock_refuted.
 
 (* malformed definitions raise ValueError: in every parser state ... *)
 Theorem C17_malformed_missing_tzid : forall st,
